@@ -1,8 +1,12 @@
 #!/bin/bash
-# re-confirms every seeded change against the check of its property (and optional cross-checks)
+# re-confirms every seeded change against the check of its property (and optional cross-checks);
+# usage: bin/seedall.sh [-j N] [seedcheck options]; summary on stdout, logs in /var/tmp/seed_<id>.log
 cd /verif
+J=3
+if [ "$1" = "-j" ]; then J=$2; shift 2; fi
+export SEEDARGS="$*"
+ls -d seeded/*/ | xargs -P "$J" -I{} sh -c 'timeout 2400 bin/seedcheck.py {} $SEEDARGS > /var/tmp/seed_$(basename {}).log 2>&1'
 for d in seeded/*/; do
-  timeout 1800 bin/seedcheck.py $d "$@" > /var/tmp/seed_$(basename $d).log 2>&1
   python3 - $d <<'PY'
 import json,sys
 d=sys.argv[1]
